@@ -9,7 +9,7 @@ LEVEL = "exploration"
 CHUNK = 4
 CASE_TIMEOUT = 900
 REQUIRED_COUNTERS = ["resolutions_checked", "expected_count_mismatches_checked"]
-RULE = ("random workloads of 1-3 Einsums with random rename tables at the three places (top-level 'default', "
+RULE = ("random workloads of 1-3 Einsums with random tensor AND rank-variable rename tables at the three places (top-level 'default', "
         "top-level per-Einsum, Einsum-local; dict and list forms; sources from the C22 expression generator; "
         "expected_count right, wrong or absent); for every Einsum and name the source resolved by "
         "Spec._spec_eval_expressions(einsum_name=e) is compared with the precedence lookup (Einsum-local, else "
@@ -49,7 +49,20 @@ def gen_item(rnd):
             top[e["name"]] = t
         if l:
             local[e["name"]] = l
-    return {"workload": w, "default": default, "top": top, "local": local,
+    # rank-variable renames (every Einsum iterates a, b): same three places, same precedence
+    RV_SRC = ["a", "b", "a | b"]
+    rv = {"default": {}, "top": {}, "local": {}}
+    for nm in ("rv1", "rv2"):
+        if rnd.random() < 0.7:
+            rv["default"][nm] = rnd.choice(RV_SRC)
+    for e in w["einsums"]:
+        for nm in ("rv1", "rv2", "rv3"):
+            x = rnd.random()
+            if x < 0.3:
+                rv["top"].setdefault(e["name"], {})[nm] = rnd.choice(RV_SRC)
+            elif x < 0.55:
+                rv["local"].setdefault(e["name"], {})[nm] = rnd.choice(RV_SRC)
+    return {"workload": w, "default": default, "top": top, "local": local, "rv": rv,
             "list_form": {"default": rnd.random() < 0.5, "top": rnd.random() < 0.5, "local": rnd.random() < 0.5},
             "render_seed": rnd.randrange(2**31)}
 
@@ -86,12 +99,26 @@ def build(item):
         return {nm: sx.render(e["tree"], rnd) for nm, e in entries.items()}
 
     ren_local = {en: table(es, en, item["list_form"]["local"]) for en, es in item["local"].items()}
+    rv = item.get("rv") or {"default": {}, "top": {}, "local": {}}
+    for en, es in rv["local"].items():
+        cur = ren_local.get(en)
+        if cur is None:
+            ren_local[en] = dict(es)
+        elif isinstance(cur, dict):
+            cur.update(es)
+        else:
+            cur.extend({"name": nm, "source": src} for nm, src in es.items())
     wl = sx.workload_yaml(w, ren_local)
     einsums = []
-    if item["default"]:
-        einsums.append({"name": "default", "tensor_accesses": table(item["default"], first, item["list_form"]["default"])})
-    for en, es in item["top"].items():
-        einsums.append({"name": en, "tensor_accesses": table(es, en, item["list_form"]["top"])})
+    if item["default"] or rv["default"]:
+        einsums.append({"name": "default", "tensor_accesses": table(item["default"], first, item["list_form"]["default"]) if item["default"] else []})
+        if rv["default"]:
+            einsums[-1]["rank_variables"] = [{"name": nm, "source": src} for nm, src in rv["default"].items()]
+    for en in sorted(set(item["top"]) | set(rv["top"])):
+        ent = {"name": en, "tensor_accesses": table(item["top"][en], en, item["list_form"]["top"]) if en in item["top"] else []}
+        if en in rv["top"]:
+            ent["rank_variables"] = [{"name": nm, "source": src} for nm, src in rv["top"][en].items()]
+        einsums.append(ent)
     spec = {"workload": wl,
             "arch": {"nodes": [{"!tag": "Memory", "name": "M0", "size": "inf", "area": 1, "leak_power": 0,
                                 "actions": [{"name": "read", "energy": 1, "throughput": 1}, {"name": "write", "energy": 1, "throughput": 1}]},
@@ -187,6 +214,29 @@ def check_one(item, counters):
                 viol.append({"sig": sig, "witness": {"einsum": en, "name": nm, "expected_from": where[nm], "picked": picked,
                                                      "got": sorted(got), "expected": sorted(exp),
                                                      "spec_renames": desc.get("renames")}})
+        # rank-variable renames: Einsum-local, else top-level entry under the Einsum, else default
+        rv = item.get("rv") or {"default": {}, "top": {}, "local": {}}
+        for nm in ("rv1", "rv2", "rv3"):
+            for wh, tab in (("einsum_local", rv["local"].get(en, {})), ("toplevel_per_einsum", rv["top"].get(en, {})), ("default", rv["default"])):
+                if nm in tab:
+                    break
+            else:
+                continue
+            exp = frozenset(x.strip() for x in tab[nm].split("|"))
+            counters["rank_variable_resolutions_checked"] = counters.get("rank_variable_resolutions_checked", 0) + 1
+            entries = [r for r in es.renames if str(r.name) == nm]
+            if len(entries) != 1:
+                viol.append({"sig": "rank_variable_rename_listed_%d_times" % len(entries),
+                             "witness": {"einsum": en, "name": nm, "expected_from": wh, "sources": [sorted(str(x) for x in r.source) for r in entries],
+                                         "spec_renames": desc.get("renames"), "einsum_renames": {x["name"]: x.get("renames") for x in desc["workload"]["einsums"]}}})
+                continue
+            got = frozenset(str(x) for x in entries[0].source)
+            if got != exp:
+                viol.append({"sig": f"rank_variable_rename_wrong_source:{wh}",
+                             "witness": {"einsum": en, "name": nm, "expected_from": wh, "got": sorted(got), "expected": sorted(exp),
+                                         "spec_renames": desc.get("renames")}})
+            if wh != "default" and nm in rv["default"]:
+                nontrivial = True
     return viol, nontrivial
 
 
